@@ -600,6 +600,11 @@ func (g *Gen) Allegation() txgen.Tx {
 	if h < 1 {
 		h = 1
 	}
+	// an allegation may be about any earlier block, not only the current one
+	if h > 2 && g.pct(25, "oldheight") {
+		h = int64(1 + g.Uniform(int(h)-1, "oldheightv"))
+		tags = append(tags, "alleg-old-height")
+	}
 	tx := txgen.Allegation(signer, id, rep.Key.Addr, acc.Key.Addr, h, "proof", g.fee(), w.Memo())
 	tx.Tags = tags
 	tx.Note = fmt.Sprintf("%s:%d:%d", id, rep.Idx, acc.Idx)
